@@ -170,4 +170,36 @@ theorem preauth_at_most_once_all_schedules (strict incl : Bool) (c : Sq) (s : Vc
       (preAuthKey code) ≤ 1 :=
   at_most_one_success_atomic (today strict incl) (Or.inr (Or.inl (today_gad_locked strict incl))) s.codes _ sched (preAuthKey code) .preAuth rfl
 
+/-! ### burn-all under every schedule -/
+
+/-- **Dead after burn-all, in EVERY schedule** (and: dead after any refused-before-the-store code request): once a Delete-only
+    thread `j` — a burn-all thread of an authorization response, or a token request naming a code without verifier /
+    client_id — has finished in a schedule `s1` (its Delete reached the store), the secret is absent from the store and every
+    request `i` on that secret that had not yet passed its Get at that moment is refused in EVERY continuation `s2` — any
+    other requests running concurrently, any shape of GetAndDelete, any back-end.  (Invariant `NInv` by induction over all
+    schedules; generalises `code_dead_after_failed_attempt` from the deferred Delete of `code` to all kinds.) -/
+theorem dead_after_burn_all_in_every_schedule (cfg : Cfg) (st : Store) (reqs : List Req) (s1 s2 : List Ev)
+    (j : Nat) (r : BurnReq) (o : Outcome) (f : Nat)
+    (hj : (run cfg s1 (init st reqs)).ths[j]? = some (Thread.burn r (.done o) f)) (hp : r.pre = false) (hdel : r.failDel = false)
+    (i : Nat) (t : Thread) (hi : (run cfg s1 (init st reqs)).ths[i]? = some t) (hkey : t.key = r.key) (hidle : t.idle = true)
+    (t' : Thread) (ht' : (run cfg s2 (run cfg s1 (init st reqs))).ths[i]? = some t') :
+    stFind (run cfg s1 (init st reqs)).store r.key = none ∧ t'.took = false := by
+  have hgone : stFind (run cfg s1 (init st reqs)).store r.key = none := by
+    rcases NInv_run cfg s1 _ (NInv_init st reqs) j r (.done o) f hj hp hdel with h | ⟨_, h⟩ | ⟨_, _, h⟩
+    · cases h
+    · cases h
+    · exact h
+  exact ⟨hgone, dead_never_honoured cfg _ r.key r.kind rfl (stGet_none_of_find_none _ _ _ _ hgone) i t hi hkey hidle s2 t' ht'⟩
+
+/-- non-vacuity: a disagreeing response names n1 (one of its burn-all threads, thread 0) while an honest response with n1
+    (thread 1) has not started: after thread 0 finished, n1 is gone and thread 1 ends refused -/
+example :
+    let reqs : List Req := [.burn { kind := .vpNonce, id := "n1", want := "s", pre := false }, .burn { kind := .vpNonce, id := "n1", want := "s" }]
+    let st : Store := [(vpKey "n1", ⟨"s", 300⟩)]
+    let w1 := run todayMem [.step 0, .step 0] (init st reqs)
+    w1.ths[0]? = some (Thread.burn { kind := .vpNonce, id := "n1", want := "s", pre := false } (.done .missingParam) 0) ∧
+    (w1.ths[1]?.map Thread.idle) = some true ∧ w1.store = [] ∧
+    ((run todayMem [.step 1, .step 1, .step 1] w1).ths[1]?.bind Thread.outcome) = some .notFound := by
+  decide
+
 end Nuts.C05.Props
